@@ -51,3 +51,67 @@ def cex_c05(obl, results, env):
                                     meaning='replace the existing connection iff the new one was dialed by the greater PeerId',
                                     source='kani concrete playback of harness %s' % h),
                 observed=got, replayed_on_real_code=ok, reproduced=bool(ok and got.get('result') != expected))
+
+
+def _first_fail(res):
+    if res and res.get('failed'):
+        f = res['failed'][0]
+        return dict(counterexample=dict(scenario=f['scenario'], args=f['args'], expected=f['expected'], source='search over golden vectors / boundary sizes (%s)' % res['name']),
+                    observed=f['observed'], replayed_on_real_code=True, reproduced=True)
+    return None
+
+
+def cex_c07(obl, results, env):
+    import validate
+    kr = _unit(results, 'kani_wire')
+    if obl['backend'].startswith('kani') and kr and kr.get('status') == 'ok':
+        h = obl.get('harness')
+        vecs, out = driver.kani_playback(kr, h)
+        if vecs and h in ('read_version_total_and_exact', 'read_version_consumes_only_eight'):
+            flat = [b for v in vecs for b in v]
+            if h == 'read_version_total_and_exact':
+                data, ln = flat[:8], int.from_bytes(bytes(flat[8:16]), 'little')
+                data = data[:ln]
+            else:
+                data = flat[:12]
+            valid = bytes(data[:8]) == b'anemo\x00\x01\x00' and len(data) >= 8
+            got, ok = _replay('read_version', dict(bytes=data), env)
+            return dict(counterexample=dict(scenario='read_version', args=dict(bytes=data), expected=dict(ok=valid), source='kani concrete playback of harness %s' % h),
+                        observed=got, replayed_on_real_code=ok, reproduced=bool(ok and got.get('ok') != valid))
+        if vecs and h == 'response_header_status_closed_set':
+            x = int.from_bytes(bytes([b for v in vecs for b in v][:2]), 'little')
+            msg = validate.PREAMBLE + validate.be32(len(validate.bincode_resp_header(x, {}))) + validate.bincode_resp_header(x, {}) + validate.be32(0)
+            exp = x in (200, 400, 404, 408, 429, 500, 505, 520)
+            got, ok = _replay('read_response', dict(bytes=msg.hex()), env)
+            return dict(counterexample=dict(scenario='read_response', args=dict(bytes=msg.hex()), expected=dict(ok=exp, status=x if exp else None),
+                                            meaning='a response whose header carries status %d' % x, source='kani concrete playback of harness %s' % h),
+                        observed=got, replayed_on_real_code=ok, reproduced=bool(ok and (got.get('ok') != exp or (exp and got.get('status') != x))))
+        if vecs and h in ('version_closed_set', 'status_closed_set'):
+            x = int.from_bytes(bytes([b for v in vecs for b in v][:2]), 'little')
+            if h == 'version_closed_set':
+                got, ok = _replay('version_new', dict(version=x), env)
+                exp = (x == 1)
+            else:
+                got, ok = _replay('status_new', dict(code=x), env)
+                exp = x in (200, 400, 404, 408, 429, 500, 505, 520)
+            return dict(counterexample=dict(scenario='version_new' if h == 'version_closed_set' else 'status_new', args=dict(version=x) if h == 'version_closed_set' else dict(code=x),
+                                            expected=dict(ok=exp), source='kani concrete playback of harness %s' % h),
+                        observed=got, replayed_on_real_code=ok, reproduced=bool(ok and got.get('ok') != exp))
+    try:
+        return _first_fail(validate.bincode_golden(env))
+    except driver.Undecided:
+        return None
+
+
+def cex_c15(obl, results, env):
+    import validate
+    try:
+        if 'configured_limit' in obl['id'] or 'length_field' in obl['id']:
+            for n in (0, 1, 100, 65536, 8388608, 8388609, 1 << 31):
+                got, ok = _replay('max_frame', dict(max_frame_size=n), env)
+                if ok and got.get('max') != n:
+                    return dict(counterexample=dict(scenario='max_frame', args=dict(max_frame_size=n), expected=dict(max=n), source='search over limit values'),
+                                observed=got, replayed_on_real_code=True, reproduced=True)
+        return _first_fail(validate.frame_boundary(env))
+    except driver.Undecided:
+        return None
